@@ -91,6 +91,11 @@ func (e *connStatus) Connects() uint64 {
 	return e.connects
 }
 
+// connectsWithoutLock is Connects for a caller that holds the lock, e.g. inside a cond.Wait loop.
+func (e *connStatus) connectsWithoutLock() uint64 {
+	return e.connects
+}
+
 func (e *connStatus) SwapWithoutLock(state connStatusValue) (old connStatusValue) {
 	old = e.current
 	if state == connStatusConnected && old != connStatusConnected {
